@@ -40,6 +40,12 @@ pub const P_EVENTS: Profile = Profile {
   name: "events", blocks: (5, 12), max_tx: 4, w_commit: 8, p_named: 12, p_unnamed: 30, p_mint: 35, p_edicts: 55, max_edicts: 4, p_flaw: 12, p_plain: 25, p_inscribe: 35,
 };
 
+/// C37 receiver mode: the same, indexed through a capacity-1 channel and a slow consumer thread;
+/// many inscription events per update
+pub const P_EVENTS_SLOW: Profile = Profile {
+  name: "events-slow", blocks: (6, 9), max_tx: 12, w_commit: 3, p_named: 5, p_unnamed: 20, p_mint: 25, p_edicts: 40, max_edicts: 3, p_flaw: 8, p_plain: 45, p_inscribe: 85,
+};
+
 pub fn inscription_id_value(id: ord::InscriptionId) -> Vec<u8> {
   use bitcoin::hashes::Hash;
   let mut v = id.txid.to_byte_array().to_vec();
@@ -639,7 +645,7 @@ impl Gen<'_> {
   }
 
   fn step(&mut self) {
-    let ntx = self.rng.below(self.p.max_tx + 1);
+    let ntx = if self.p.name == "events-slow" { self.p.max_tx / 2 + self.rng.below(self.p.max_tx / 2 + 1) } else { self.rng.below(self.p.max_tx + 1) };
     let mut specs: Vec<TxSpec> = Vec::new();
     let mut taken: BTreeSet<(usize, u32)> = BTreeSet::new();
     let mut pending: Vec<(usize, usize)> = Vec::new(); // (future txnum, number of spendable-looking outputs)
@@ -686,7 +692,7 @@ impl Gen<'_> {
 
 /// a whole chain; returns its case line and the feature counts
 pub fn gen_chain(rng: &mut Rng, p: Profile) -> (Line, Features) {
-  let mut g = Gen { rng, p, chain: Chain::with(ChainOpts { events: p.p_inscribe > 0 }), funding: Vec::new(), commits: Vec::new(), f: Features::new() };
+  let mut g = Gen { rng, p, chain: Chain::with(ChainOpts { events: p.p_inscribe > 0, slow: p.name == "events-slow" }), funding: Vec::new(), commits: Vec::new(), f: Features::new() };
   // a few funding blocks first; the etch profile also plants commit outputs early
   g.chain.add_block(&[]);
   let cb = g.chain.blocks.last().unwrap().txnums[0];
@@ -694,6 +700,17 @@ pub fn gen_chain(rng: &mut Rng, p: Profile) -> (Line, Features) {
   g.chain.add_block(&[]);
   let cb = g.chain.blocks.last().unwrap().txnums[0];
   g.funding.push((cb, 0));
+  if p.name == "events-slow" {
+    // many spendable outputs, so that a block can hold many reveals / transfers
+    let o = g.funding.remove(0);
+    g.chain.add_block(&[TxSpec { ins: vec![InSpec { txnum: o.0, vout: o.1, witness: vec![] }], outs: vec![OutSpec::P2wpkh; 80] }]);
+    let b = g.chain.blocks.last().unwrap();
+    let (cb, fan) = (b.txnums[0], b.txnums[1]);
+    g.funding.push((cb, 0));
+    for v in 0..80u32 {
+      g.funding.push((fan, v));
+    }
+  }
   if p.w_commit > 0 {
     let mut taken = BTreeSet::new();
     let base = g.chain.txs.len() + 1;
